@@ -264,7 +264,7 @@ pub fn id_history_dfs(
         depth: usize,
         max_live: usize,
     }
-    fn check(arena: &Arena<Payload>, ctx: &Ctx, extra: &[(NodeId, bool)], stats: &mut IdDfsStats) -> Option<Failure> {
+    fn check(arena: &Arena<Payload>, ctx: &Ctx, extra: &[(NodeId, bool, bool)], stats: &mut IdDfsStats) -> Option<Failure> {
         for (slot, b) in ctx.base.iter().enumerate().filter(|_| !ctx.probe_c12) {
             // is_removed(id) reads the node stored at id's position: the verdict for the (tens of
             // thousands of) long-removed ids of a slot is re-evaluated whenever the complete
@@ -287,11 +287,11 @@ pub fn id_history_dfs(
         }
         // C12 probe: a removed id is refused by the checked inserts in either position
         if ctx.probe_c12 {
-            if let Some((l, _)) = extra.iter().find(|(_, live)| *live) {
-                for (k, (rid, live)) in extra.iter().enumerate() {
+            if let Some((l, _, _)) = extra.iter().find(|(_, live, _)| *live) {
+                for (k, (rid, live, _)) in extra.iter().enumerate() {
                     // only removed ids whose slot has not been recycled since (a stale id of a
                     // recycled slot is documented misuse and addresses the new occupant)
-                    if *live || extra[k + 1..].iter().any(|(later, _)| usize::from(*later) == usize::from(*rid)) {
+                    if *live || extra[k + 1..].iter().any(|(later, _, _)| usize::from(*later) == usize::from(*rid)) {
                         continue;
                     }
                     for flip in [false, true] {
@@ -312,7 +312,10 @@ pub fn id_history_dfs(
             }
             return None;
         }
-        for (id, live) in extra {
+        for (id, live, undefined) in extra {
+            if *undefined {
+                continue;
+            }
             stats.is_removed_checks += 1;
             if guarded(|| id.is_removed(arena)) != Ok(!*live) {
                 return Some(fail(C06, "is_removed", if *live { "live-id-reports-removed" } else { "removed-id-reports-live" },
@@ -324,7 +327,7 @@ pub fn id_history_dfs(
     fn rec(
         arena: &Arena<Payload>,
         ctx: &Ctx,
-        extra: &mut Vec<(NodeId, bool)>,
+        extra: &mut Vec<(NodeId, bool, bool)>,
         path: &mut Vec<String>,
         stats: &mut IdDfsStats,
     ) -> Option<(Vec<String>, Failure)> {
@@ -332,7 +335,7 @@ pub fn id_history_dfs(
             stats.paths += 1;
             return None;
         }
-        let live: Vec<usize> = (0..extra.len()).filter(|&i| extra[i].1).collect();
+        let live: Vec<usize> = (0..extra.len()).filter(|&i| extra[i].1 && !extra[i].2).collect();
         // op 0: new_node
         if live.len() < ctx.max_live {
             let mut a = arena.clone();
@@ -340,11 +343,11 @@ pub fn id_history_dfs(
             match guarded(|| a.new_node(Payload(0))) {
                 Ok(id) => {
                     path.push("new_node".into());
-                    let dup = extra.iter().any(|(x, _)| *x == id) || ctx.base.iter().any(|b| b.contains(&id));
+                    let dup = extra.iter().any(|(x, _, _)| *x == id) || ctx.base.iter().any(|b| b.contains(&id));
                     if dup {
                         return Some((path.clone(), fail(C06, "fresh-id", "id-reissued", format!("new_node returned {} which was issued before", fmt_id(Some(id))))));
                     }
-                    extra.push((id, true));
+                    extra.push((id, true, false));
                     if let Some(f) = check(&a, ctx, extra, stats) {
                         return Some((path.clone(), f));
                     }
@@ -355,6 +358,31 @@ pub fn id_history_dfs(
                     path.pop();
                 }
                 Err(_) => stats.panics += 1,
+            }
+        }
+        // remove whose payload destructor panics: afterwards the node's fate is undefined (it is
+        // skipped by the is_removed oracle), but its id must never be issued again
+        if !ctx.probe_c12 && path.len() + 1 < ctx.depth {
+            for &i in &live {
+                if extra[i].2 {
+                    continue;
+                }
+                let mut a = arena.clone();
+                let id = extra[i].0;
+                stats.steps += 1;
+                crate::payload::set_bomb(Some(0));
+                let r = guarded(|| id.remove(&mut a));
+                crate::payload::set_bomb(None);
+                if r.is_err() {
+                    path.push(format!("remove {} (its payload's destructor panics)", fmt_id(Some(id))));
+                    let saved = extra[i];
+                    extra[i] = (id, false, true);
+                    if let Some(r) = rec(&a, ctx, extra, path, stats) {
+                        return Some(r);
+                    }
+                    extra[i] = saved;
+                    path.pop();
+                }
             }
         }
         for i in live {
